@@ -188,6 +188,33 @@ abbrev R (α : Type) := α × Bytes × Bool
 def nextBytes (n : Nat) (bs : Bytes) : R Bytes :=
   if n ≤ bs.length then (bs.take n, bs.drop n, false) else (bs, [], true)
 
+/-- single pass `take`/`drop` that also detects a short input (execution only; equal to `nextBytes` by `nextBytes_eq_impl`) -/
+def takeExact : Nat → Bytes → Bytes → Option (Bytes × Bytes)
+  | 0, bs, acc => some (acc.reverse, bs)
+  | _ + 1, [], _ => none
+  | n + 1, b :: bs, acc => takeExact n bs (b :: acc)
+
+def nextBytesImpl (n : Nat) (bs : Bytes) : R Bytes :=
+  match takeExact n bs [] with
+  | some (a, r) => (a, r, false)
+  | none => (bs, [], true)
+
+theorem takeExact_spec (n : Nat) (bs acc : Bytes) :
+    takeExact n bs acc = if n ≤ bs.length then some (acc.reverse ++ bs.take n, bs.drop n) else none := by
+  induction n generalizing bs acc with
+  | zero => simp [takeExact]
+  | succ n ih =>
+    cases bs with
+    | nil => simp [takeExact]
+    | cons b bs =>
+      simp only [takeExact, ih, List.length_cons, Nat.add_le_add_iff_right, List.reverse_cons, List.take_succ_cons,
+        List.drop_succ_cons, List.append_assoc, List.singleton_append]
+
+@[csimp] theorem nextBytes_eq_impl : @nextBytes = @nextBytesImpl := by
+  funext n bs
+  simp only [nextBytes, nextBytesImpl, takeExact_spec]
+  split <;> simp
+
 def nextByte : Bytes → R UInt8
   | [] => (0, [], true)
   | b :: r => (b, r, false)
